@@ -36,6 +36,7 @@ def apply(op, args, p, np=numpy):
     if op == 'log1pabs': return numpy.log(numpy.absolute(a) + 1.)
     if op == 'reciprocal_s': return numpy.reciprocal(numpy.absolute(a) + .5)
     if op in ('add', 'subtract', 'multiply', 'hypot', 'arctan2', 'minimum', 'maximum', 'greater', 'less', 'equal', 'logical_and', 'logical_or', 'matmul', 'dot', 'vdot', 'cross'):
+        if op == 'cross' and p and 'axis' in p: return numpy.cross(a, b, axis=p['axis'])
         return getattr(numpy, op)(a, b)
     if op == 'pyscalar':
         # one operand is a plain Python scalar (bool/int/float), as in `cond | False` or numpy.maximum(f, True)
@@ -243,7 +244,7 @@ class Gen:
                 ix = ['...'] + ix[-1:]
             if self.try_add('getitem', [a], dict(index=ix)): self.features.add('getitem')
         elif fam in ('linalg', 'einsum_ell'):
-            op = self.choice(['matmul', 'dot', 'vdot', 'einsum', 'einsum', 'norm', 'det', 'cross', 'op_matmul']) if fam == 'linalg' else 'einsum'
+            op = self.choice(['matmul', 'dot', 'vdot', 'einsum', 'einsum', 'norm', 'det', 'cross', 'cross', 'op_matmul']) if fam == 'linalg' else 'einsum'
             a, b = self.pick(lambda v, e: v.ndim >= 1 and v.dtype.kind in 'ifc'), self.pick(lambda v, e: v.ndim >= 1 and v.dtype.kind in 'ifc')
             if a is None or b is None: return
             va, vb = self.pool[a][0], self.pool[b][0]
@@ -272,6 +273,19 @@ class Gen:
                 self.try_add('det', [a], {})
             else:
                 if op == 'vdot' and (va.ndim != 1 or vb.ndim != 1): op = 'dot'
+                if op == 'cross':
+                    # numpy.cross(a, b, axis=k): vector axis anywhere (also negative), result axis at the same place
+                    c = self.pick(lambda v, e: v.ndim >= 2 and 3 in v.shape and v.dtype.kind in 'ifc')
+                    if c is not None and self.integer(0, 3):
+                        sc = self.pool[c][0].shape
+                        vc = self.pool[c][0]
+                        d = self.pick(lambda v, e: v.shape == sc and v.dtype.kind in 'ifc' and v is not vc)
+                        if d is None: d = c
+                        ks = [k for k, n in enumerate(sc) if n == 3]
+                        if len(ks) > 1 and self.integer(0, 2): ks = [k for k in ks if k != len(sc) - 1]
+                        k = self.choice(ks) - (len(sc) if self.integer(0, 1) else 0)
+                        if d is not None and self.try_add('cross', [c, d], dict(axis=k)): self.features.add('cross-axis-keyword')
+                        return
                 self.try_add(op, [a, b], {})
             self.features.add('linalg')
         elif fam == 'logic':
